@@ -1264,6 +1264,9 @@ let run_case (line : string) (toks : string list) : string =
   | ["rmm"; maxd; ops; qs] -> run_rmm maxd ops qs
   | "pm" :: fn :: k :: pat :: rest -> run_pm fn k pat rest
   | ["savecrash"; o; n; k] -> run_savecrash o n k
+  (* a fault / crash injected at a system-call boundary: which of the two complete policies remains depends on the
+     call sequence of the adapter, which the model does not predict: "~" = not compared, judged by the predicate only *)
+  | ["savesys"; _; _; _; _; _] -> "~"
   | "stress" :: _ -> "ok"   (* serial oracle: every concurrent decision is a serial one, all threads finish *)
   | [("csv" | "esc" | "rmc" | "csvf" | "ini" | "mdl" | "totext") as kind; t] -> run_txt kind t
   | ["csvx"; t; _] -> run_txt "csv" t
@@ -1292,6 +1295,13 @@ let pred_case (line : string) (toks : string list) (impl : string) : string =
      | [a; b] -> b01 (a = b)
      | _ -> "0")
   | ["savecrash"; o; n; _] -> pred_savecrash o n impl
+  | ["savesys"; o; n; _; _; _] ->
+    (* the store holds one complete policy, old or new; and a save that reported success left the new one *)
+    let m = kv impl in
+    if List.assoc_opt "res" m = Some "nostrace" then "-" else
+    (match pred_savecrash o n impl, List.assoc_opt "res" m, List.assoc_opt "file" m with
+     | "1", Some "ok", Some f -> b01 (f = enc_rules (dec_rules n))
+     | v, _, _ -> v)
   | "stress" :: _ -> if impl = "SKIPPED-after-HANG" then "-" else b01 (impl = "ok")
   | "pm" :: fn :: k :: pat :: rest ->
     (* totality for every request-side key; documented meaning inside the grammar *)
